@@ -4,6 +4,8 @@ C03 — property theorems (only final statements live here; helper lemmas are in
 -/
 import Pastel.Model.Color
 import Pastel.Lemmas.Hexcone
+import Pastel.Props.C06
+import Pastel.Lemmas.Turns
 
 namespace Pastel.C03
 open Pastel
@@ -85,5 +87,195 @@ theorem hsl_roundtrip_float_witnesses :
     (let c := toRgba8 (fromRgba8 200 100 50 0.5 : Color Float); (c.r, c.g, c.b)) = (200, 100, 50) ∧
     (let c := toRgba8 (fromRgba8 1 255 254 1.0 : Color Float); (c.r, c.g, c.b)) = (1, 255, 254) := by
   decide +kernel
+
+
+section hsv
+open Pastel.C05
+
+/-- **HSV round trip in exact arithmetic**: converting a valid colour to HSV and constructing a
+colour from those coordinates gives the same colour — the same lightness, the same saturation
+unless the colour is black or white (where it is irrelevant), the same reported hue and alpha,
+and identical float RGB channels. -/
+theorem hsv_roundtrip_real (c : Color ℝ) (hc : Valid c) :
+    let q := toHsva c
+    let c' := fromHsva q.x q.y q.z q.alpha
+    c'.light = c.light ∧ (0 < c.light → c.light < 1 → c'.sat = c.sat) ∧
+    hueValue c'.hue = hueValue c.hue ∧ c'.alpha = c.alpha ∧ toRgbaFloat c' = toRgbaFloat c := by
+  obtain ⟨s0, s1, l0, l1⟩ := C06.valid_real c hc
+  obtain ⟨_, a0, a1⟩ := hc.alpha_range
+  have a0' : (0 : ℝ) ≤ c.alpha := by simpa using a0
+  have a1' : c.alpha ≤ (1 : ℝ) := by simpa using a1
+  simp only []
+  have e10 : (1.0 : ℝ) = 1 := by norm_num
+  have e00 : (0.0 : ℝ) = 0 := by norm_num
+  have e20 : (2.0 : ℝ) = 2 := by norm_num
+  have hμ : 0 ≤ min c.light (1 - c.light) := le_min l0 (by linarith)
+  have hv0 : 0 ≤ c.light + c.sat * min c.light (1 - c.light) := by positivity
+  -- the lightness comes back
+  have hlight : (fromHsva (toHsva c).x (toHsva c).y (toHsva c).z (toHsva c).alpha).light = c.light := by
+    simp only [fromHsva, toHsva, clamp]
+    sc_norm
+    push_cast
+    simp only [e10, e00, e20]
+    push_cast
+    by_cases hv : 0 < c.light + c.sat * min c.light (1 - c.light)
+    · rw [if_pos hv]
+      have : (c.light + c.sat * min c.light (1 - c.light)) *
+          (1 - 2 * (1 - c.light / (c.light + c.sat * min c.light (1 - c.light))) / 2) = c.light := by
+        field_simp
+        ring
+      rw [this, min_eq_right l1, max_eq_left l0]
+    · rw [if_neg hv]
+      have hz : c.light + c.sat * min c.light (1 - c.light) = 0 := le_antisymm (not_lt.mp hv) hv0
+      have hl : c.light = 0 := by nlinarith [mul_nonneg s0 hμ]
+      rw [hz, hl]; norm_num
+  have hhue : hueValue (fromHsva (toHsva c).x (toHsva c).y (toHsva c).z (toHsva c).alpha).hue = hueValue c.hue := by
+    show hueValue (hueFrom (hueValue c.hue)) = hueValue c.hue
+    have : hueFrom (hueValue c.hue) = hueValue c.hue := by unfold hueFrom; simp
+    rw [this, real_hueValue_idem]
+  have halpha : (fromHsva (toHsva c).x (toHsva c).y (toHsva c).z (toHsva c).alpha).alpha = c.alpha := by
+    simp only [fromHsva, toHsva, clamp]; sc_norm; push_cast
+    rw [min_eq_right a1', max_eq_left a0']
+  have hsat : 0 < c.light → c.light < 1 →
+      (fromHsva (toHsva c).x (toHsva c).y (toHsva c).z (toHsva c).alpha).sat = c.sat := by
+    intro hl0 hl1
+    have hμp : 0 < min c.light (1 - c.light) := lt_min hl0 (by linarith)
+    have hv : 0 < c.light + c.sat * min c.light (1 - c.light) := by
+      have := mul_nonneg s0 hμ; linarith
+    simp only [fromHsva, toHsva, clamp]
+    sc_norm
+    push_cast
+    simp only [e10, e00, e20]
+    push_cast
+    rw [if_pos hv]
+    have e : (c.light + c.sat * min c.light (1 - c.light)) *
+        (1 - 2 * (1 - c.light / (c.light + c.sat * min c.light (1 - c.light))) / 2) = c.light := by
+      field_simp
+      ring
+    rw [e, if_pos ⟨hl0, hl1⟩]
+    have e2 : (c.light + c.sat * min c.light (1 - c.light) - c.light) / min c.light (1 - c.light) = c.sat := by
+      field_simp
+      ring
+    rw [e2, min_eq_right s1, max_eq_left s0]
+  refine ⟨hlight, hsat, hhue, halpha, ?_⟩
+  by_cases hmid : 0 < c.light ∧ c.light < 1
+  · exact toRgbaFloat_hue_congr c _ hhue (hsat hmid.1 hmid.2) hlight halpha
+  · -- black or white: both colours are achromatic with the same lightness
+    have hchr : ∀ s : ℝ, ((1.0 : ℝ) - |(2.0 : ℝ) * c.light - (1.0 : ℝ)|) * s = 0 := by
+      intro s
+      have : c.light = 0 ∨ c.light = 1 := by
+        by_cases h0 : 0 < c.light
+        · right; have : ¬ c.light < 1 := fun h => hmid ⟨h0, h⟩; linarith
+        · left; linarith
+      rcases this with h | h <;> rw [h] <;> norm_num
+    have h1 := toRgbaFloat_achromatic c (hchr _)
+    have h2 := toRgbaFloat_achromatic (fromHsva (toHsva c).x (toHsva c).y (toHsva c).z (toHsva c).alpha)
+      (by rw [hlight]; exact hchr _)
+    have ea : (toRgbaFloat (fromHsva (toHsva c).x (toHsva c).y (toHsva c).z (toHsva c).alpha)).alpha = (toRgbaFloat c).alpha := by
+      show (fromHsva (toHsva c).x (toHsva c).y (toHsva c).z (toHsva c).alpha).alpha = c.alpha
+      exact halpha
+    cases hq : toRgbaFloat (fromHsva (toHsva c).x (toHsva c).y (toHsva c).z (toHsva c).alpha) with
+    | mk x y z al =>
+      cases hp : toRgbaFloat c with
+      | mk x' y' z' al' =>
+        rw [hq] at h2 ea; rw [hp] at h1 ea
+        simp only at h1 h2 ea
+        rw [h2.1, h2.2.1, h2.2.2, h1.1, h1.2.1, h1.2.2, hlight, ea]
+
+
+end hsv
+
+
+/-! ### CMYK -/
+
+theorem quantize_chan (x : UInt8) : quantize (chan x) = x := by
+  unfold quantize
+  have hx := chan_range x
+  have hc : clamp (0 : ℝ) 255 (255 * chan x) = 255 * chan x := by
+    simp only [clamp, real_fmin, real_fmax, real_lit]
+    push_cast
+    rw [min_eq_right (by nlinarith [hx.2]), max_eq_left (by nlinarith [hx.1])]
+  have := real_toU8_round_chan x
+  have e : (255.0 : ℝ) * chan x = 255 * chan x := by norm_num
+  rw [e] at this
+  simp only [real_lit] at hc ⊢
+  push_cast at hc ⊢
+  rw [hc]; exact this
+
+/-- The naive CMYK formulas invert each other on a channel: with `big` the largest channel,
+`(1 − (1 − x − (1 − big)) / big) · (1 − (1 − big)) = x` (also for `big = 0`, where `x = 0`). -/
+theorem cmyk_channel (x big : ℝ) (hx0 : 0 ≤ x) (hxb : x ≤ big) :
+    (1 - (1 - x - (1 - big)) / big) * (1 - (1 - big)) = x := by
+  by_cases hb : big = 0
+  · have : x = 0 := by linarith
+    rw [hb, this]; norm_num
+  · field_simp
+    ring
+
+/-- **CMYK round trip in exact arithmetic, all 2²⁴ colours at once**: converting an 8-bit colour
+to CMYK and back gives the same bytes. -/
+theorem cmyk_roundtrip (r g b : UInt8) (a : ℝ) :
+    let q := toCmyk (fromRgba8 r g b a : Color ℝ)
+    let c' := toRgba8 (fromCmyk q.c q.m q.y q.k : Color ℝ)
+    c'.r = r ∧ c'.g = g ∧ c'.b = b := by
+  simp only []
+  have hrt := hsl_roundtrip r g b a
+  obtain ⟨e1, e2, e3⟩ := hrt
+  have hR := chan_range r
+  have hG := chan_range g
+  have hB := chan_range b
+  -- the three float channels fed to fromRgbaFloat are exactly r/255, g/255, b/255
+  have key : ∀ (x y z : ℝ), x = chan r → y = chan g → z = chan b →
+      (toRgba8 (fromRgbaFloat x y z (1.0 : ℝ) : Color ℝ)).r = r ∧ (toRgba8 (fromRgbaFloat x y z (1.0 : ℝ) : Color ℝ)).g = g ∧
+      (toRgba8 (fromRgbaFloat x y z (1.0 : ℝ) : Color ℝ)).b = b := by
+    intro x y z hx hy hz
+    unfold fromRgbaFloat
+    rw [hx, hy, hz, quantize_chan, quantize_chan, quantize_chan]
+    exact hsl_roundtrip r g b _
+  have e10 : (1.0 : ℝ) = 1 := by norm_num
+  have e00 : (0.0 : ℝ) = 0 := by norm_num
+  have e255 : (255.0 : ℝ) = 255 := by norm_num
+  have big_spec : ∀ R G B : ℝ, R ≤ (if G ≤ R ∧ B ≤ R then R else if R ≤ G ∧ B ≤ G then G else B) ∧
+      G ≤ (if G ≤ R ∧ B ≤ R then R else if R ≤ G ∧ B ≤ G then G else B) ∧
+      B ≤ (if G ≤ R ∧ B ≤ R then R else if R ≤ G ∧ B ≤ G then G else B) := by
+    intro R G B
+    split_ifs with h1 h2
+    · exact ⟨le_rfl, h1.1, h1.2⟩
+    · exact ⟨h2.1, le_rfl, h2.2⟩
+    · push Not at h1 h2
+      by_cases hgr : G ≤ R
+      · have hb := h1 hgr
+        by_cases hrg : R ≤ G
+        · have := h2 hrg; exact ⟨by linarith, by linarith, le_rfl⟩
+        · exact ⟨by linarith, by linarith, le_rfl⟩
+      · have hrg : R ≤ G := by linarith
+        have := h2 hrg
+        exact ⟨by linarith, by linarith, le_rfl⟩
+  unfold fromCmyk
+  apply key
+  all_goals
+    simp only [toCmyk, e1, e2, e3, u8f, real_isNaN]
+    sc_norm
+    simp only [e10, e00, e255, Bool.false_eq_true, if_false]
+    push_cast
+  · have hs := big_spec (chan r) (chan g) (chan b)
+    unfold chan at hs ⊢
+    generalize (if (g.toNat : ℝ) / 255 ≤ (r.toNat : ℝ) / 255 ∧ (b.toNat : ℝ) / 255 ≤ (r.toNat : ℝ) / 255 then (r.toNat : ℝ) / 255
+      else if (r.toNat : ℝ) / 255 ≤ (g.toNat : ℝ) / 255 ∧ (b.toNat : ℝ) / 255 ≤ (g.toNat : ℝ) / 255 then (g.toNat : ℝ) / 255
+      else (b.toNat : ℝ) / 255) = big at hs ⊢
+    exact cmyk_channel _ big (by positivity) hs.1
+  · have hs := big_spec (chan r) (chan g) (chan b)
+    unfold chan at hs ⊢
+    generalize (if (g.toNat : ℝ) / 255 ≤ (r.toNat : ℝ) / 255 ∧ (b.toNat : ℝ) / 255 ≤ (r.toNat : ℝ) / 255 then (r.toNat : ℝ) / 255
+      else if (r.toNat : ℝ) / 255 ≤ (g.toNat : ℝ) / 255 ∧ (b.toNat : ℝ) / 255 ≤ (g.toNat : ℝ) / 255 then (g.toNat : ℝ) / 255
+      else (b.toNat : ℝ) / 255) = big at hs ⊢
+    exact cmyk_channel _ big (by positivity) hs.2.1
+  · have hs := big_spec (chan r) (chan g) (chan b)
+    unfold chan at hs ⊢
+    generalize (if (g.toNat : ℝ) / 255 ≤ (r.toNat : ℝ) / 255 ∧ (b.toNat : ℝ) / 255 ≤ (r.toNat : ℝ) / 255 then (r.toNat : ℝ) / 255
+      else if (r.toNat : ℝ) / 255 ≤ (g.toNat : ℝ) / 255 ∧ (b.toNat : ℝ) / 255 ≤ (g.toNat : ℝ) / 255 then (g.toNat : ℝ) / 255
+      else (b.toNat : ℝ) / 255) = big at hs ⊢
+    exact cmyk_channel _ big (by positivity) hs.2.2
+
 
 end Pastel.C03
